@@ -13,7 +13,9 @@ Hashes == {"h1", "h2"}
 \* start tag, well within the 100 MB budget of an element with content); at most one huge object per document, first in the list
 Datas == {"empty", "one", "bin", "big", "huge"}
 Serials == {0, 1, 2, 5, SerMax - 1, SerMax}
-Auths == {"a", "A", "b"}          \* authorities of https URIs: "a" and "A" are the same host
+\* authorities of https URIs: "a" and "A" are the same host in different case, "b" another host, "ax" the host of "a" with
+\* more labels appended, "ap" the host of "a" with a port - both different authorities that merely start like "a"
+Auths == {"a", "A", "b", "ax", "ap"}
 NoneL == 99                       \* "no limit" (Option::None)
 
 \* ---- delta chain: transcription of NotificationFile::sort_and_verify_deltas(limit)
